@@ -89,13 +89,23 @@ Section Maps.
 End Maps.
 
 (* ---- printing of options *)
-(* one option found on a descriptor: the extension's index in its defining file, its qualified
-   name as printed, and (for map-valued leaves) the printed entries *)
-Record opt := mkOpt { o_index : N; o_name : bytes }.
+(* one option found on a descriptor: the source line it was written on (0 = unknown: everything the
+   j5s converter emits, and options of parsed .proto files whose location cannot be identified), the
+   extension's index in its defining file, the extension's full name, its qualified name as printed *)
+Record opt := mkOpt { o_line : N; o_index : N; o_full : bytes; o_name : bytes }.
 
-(* optionreflect OptionsFor, for descriptors without option source locations (everything j5convert
-   emits): the options in protobuf Range order, sorted by Desc.Index() only *)
-Definition options_for (range_order : list opt) : list opt := isort o_index N.leb range_order.
+(* lexicographic order on (N, K) pairs *)
+Definition lexN {K} (leb : K -> K -> bool) (x y : N * K) : bool :=
+  if fst x <? fst y then true else if fst y <? fst x then false else leb (snd x) (snd y).
+
+(* optionreflect optionsByLocation.Less (after the repair of finding 28): options with a known line
+   first, by line; the others by extension index; ties by full name *)
+Definition opt_key (o : opt) : N * (N * (N * bytes)) :=
+  (if o_line o =? 0 then 1 else 0, (o_line o, (if o_line o =? 0 then o_index o else 0, o_full o))).
+Definition opt_key_leb : N * (N * (N * bytes)) -> N * (N * (N * bytes)) -> bool := lexN (lexN (lexN bleb)).
+
+(* OptionsFor: the options in protobuf Range order, sorted *)
+Definition options_for (range_order : list opt) : list opt := isort opt_key opt_key_leb range_order.
 (* protoprint optionsFor (fields and enum values): re-sorted by qualified name *)
 Definition field_options (range_order : list opt) : list opt := isort o_name bleb (options_for range_order).
 (* walkOptionMap: entries in Map.Range order, sorted by the printed key (after the repair) *)
